@@ -5,7 +5,7 @@
 use vstd::prelude::*;
 use vstd::std_specs::cmp::*;
 use core::cmp::Ordering;
-use std::collections::{BTreeMap, HashMap};
+use std::collections::{BTreeMap, HashMap, HashSet};
 verus! {
 
 // ---- D-types: opaque placeholders for types the unit never inspects --------------------------
@@ -16,9 +16,21 @@ pub mod rt {
 //@ type sylt-common/src/ty.rs enum Type keep=- eq=none clone=ext
 }
 pub use rt::Type as RuntimeType;
-#[verifier::external_body] pub struct FileOrLib { x: usize }
-impl Clone for FileOrLib { #[verifier::external_body] fn clone(&self) -> (r: Self) ensures r == *self { unimplemented!() } }
 #[verifier::external_body] pub struct Path { x: usize }
+// std::path::PathBuf: an opaque value with structural ==, a lawful hash (assumed, A-hash-fileorlib)
+#[derive(Eq, Hash)] pub struct PathBuf { x: usize }
+impl Clone for PathBuf { #[verifier::external_body] fn clone(&self) -> (r: Self) ensures r == *self { unimplemented!() } }
+impl PartialEq for PathBuf { #[verifier::external_body] fn eq(&self, other: &Self) -> (r: bool) ensures r == (*self == *other) { unimplemented!() } }
+pub uninterp spec fn pathbuf_of(p: &Path) -> PathBuf;
+impl PathBuf { #[verifier::external_body] pub fn from(p: &Path) -> (r: PathBuf) ensures r == pathbuf_of(p) { unimplemented!() } }
+impl core::ops::Deref for PathBuf { type Target = Path; #[verifier::external_body] fn deref(&self) -> &Path { unimplemented!() } }
+impl Path {
+    /// whether a path has a parent directory (everything except "" and a root)
+    pub uninterp spec fn has_parent(&self) -> bool;
+    #[verifier::external_body] pub fn parent(&self) -> (r: Option<&Path>) ensures r is Some == self.has_parent() { unimplemented!() }
+}
+// the real FileOrLib of sylt_common (tree() builds and matches on it)
+//@ type sylt-common/src/lib.rs enum FileOrLib keep=Eq,Hash
 #[verifier::external_body] pub struct Error { x: usize }
 pub struct TyID(pub usize);
 type T = Token;
@@ -508,6 +520,106 @@ impl Next for Prec {
 //@   loop 3
 //@| while !matches!(ctx.token(), T::EOF)
         invariant all_top(statements@), //# C07 module.loop.statements_so_far_are_top_level_statements_with_the_parser_shape
+//@   endloop
+//@ end
+// ---- the import worklist: sylt_parser::tree ------------------------------------------------------
+/// assumption A-finite-imports: FileOrLib has finitely many values (a path is a bounded machine value), so
+/// the files one compilation can name form a finite set. Without it no import worklist terminates; with
+/// it tree() terminates because a file is marked visited BEFORE it is read and parsed, so every file is
+/// read at most once
+pub uninterp spec fn import_universe() -> Set<FileOrLib>;
+#[verifier::external_body]
+proof fn axiom_import_universe_finite() ensures import_universe().finite(), forall|f: FileOrLib| #[trigger] import_universe().contains(f) {}
+#[verifier::external_body]
+proof fn axiom_fileorlib_hash_key() ensures vstd::std_specs::hash::obeys_key_model::<FileOrLib>() {}
+#[verifier::external_body]
+pub fn library_source(name: &str) -> (r: Option<&'static str>)
+    ensures r is Some // assumed: every library name inside a FileOrLib::Lib is a key of the built-in table
+{ unimplemented!() }
+#[verifier::external_body]
+pub fn string_to_tokens(file_id: usize, content: &str) -> Vec<PlacedToken> { unimplemented!() }
+#[verifier::external_body]
+pub fn find_conflict_markers(file: &FileOrLib, file_id: usize, source: &str) -> Vec<Error> { unimplemented!() }
+#[verifier::external_body]
+fn preamble_index(modules: &Vec<(FileOrLib, Module)>) -> usize { unimplemented!() }
+#[verifier::external_body]
+fn without_repeated_errors(errors: Vec<Error>) -> Vec<Error> { unimplemented!() }
+
+//@ fn sylt-parser/src/parser.rs tree
+//@   props C07
+//@   ret r
+//@   rewrite opaque
+//@- let basics_index = modules
+//@-     .iter()
+//@-     .position(|(f, _)| *f == FileOrLib::Lib("preamble"))
+//@-     .expect("Error in the preamble code");
+//@+ let basics_index = preamble_index(&modules);
+//@   why iterator position with a closure that ignores a tuple field; the `expect` fails only if the built-in preamble does not parse (no input decides that)
+//@   endrewrite
+//@   rewrite equivalent
+//@- modules = modules
+//@-     .into_iter()
+//@-     .map(|(file, mut module)| {
+//@-         match file {
+//@-             FileOrLib::File(_) => {
+//@-                 module.statements.append(&mut std.statements.clone());
+//@-             }
+//@-             FileOrLib::Lib(_) => {}
+//@-         };
+//@-         (file, module)
+//@-     })
+//@-     .collect();
+//@+ let mut merged: Vec<(FileOrLib, Module)> = Vec::new();
+//@+ for (file, mut module) in modules.into_iter() {
+//@+     match file {
+//@+         FileOrLib::File(_) => {
+//@+             module.statements.append(&mut std.statements.clone());
+//@+         }
+//@+         FileOrLib::Lib(_) => {}
+//@+     };
+//@+     merged.push((file, module));
+//@+ }
+//@+ modules = merged;
+//@   why into_iter().map(f).collect() into a Vec pushes f(element) per element, in order
+//@   endrewrite
+//@   rewrite opaque
+//@- let mut seen = HashSet::new();
+//@- let errors = errors
+//@-     .into_iter()
+//@-     .filter(|err| match err {
+//@-         Error::SyntaxError { span, file, .. } => seen.insert((span.clone(), file.clone())),
+//@-
+//@-         _ => true,
+//@-     })
+//@-     .collect();
+//@+ let errors = without_repeated_errors(errors);
+//@   why filter with a closure that mutates a captured set; only the error list is affected
+//@   endrewrite
+//@   spec
+        requires forall|p: &Path| reader.requires((p,)), //# C07 tree.pre.the_reader_can_be_asked_for_any_path
+            path.has_parent(), //# C07 tree.pre.the_main_path_has_a_parent_directory
+        ensures r is Ok ==> modules_ok(r->Ok_0.modules@), //# C07 tree.every_statement_of_every_module_is_a_top_level_statement_with_the_parser_shape
+//@   endspec
+//@   ghost entry
+        proof { axiom_fileorlib_hash_key(); axiom_import_universe_finite(); }
+        broadcast use vstd::std_specs::hash::group_hash_axioms;
+//@   endghost
+//@   loop 1
+//@| while let Some(include) = to_visit.pop()
+        invariant modules_ok(modules@), //# C07 tree.loop.modules_so_far_hold_top_level_statements_with_the_parser_shape
+            visited@.subset_of(import_universe()), import_universe().finite(), vstd::std_specs::hash::obeys_key_model::<FileOrLib>(), //# - tree.loop.aux
+            forall|f: FileOrLib| #[trigger] import_universe().contains(f), //# - tree.loop.aux3
+            forall|p: &Path| reader.requires((p,)), //# - tree.loop.aux2
+        decreases import_universe().len() - visited@.len(), to_visit@.len(), //# C07 tree.loop.every_round_marks_a_new_file_visited_or_shortens_the_worklist
+//@   endloop
+//@   ghost after
+//@| visited.insert(include.clone());
+        proof { vstd::set_lib::lemma_len_subset(visited@, import_universe()); }
+//@   endghost
+//@   loop 2 binder itm
+//@| for (file, mut module) in modules.into_iter()
+        invariant modules_ok(merged@), module_ok(std), //# C07 tree.loop2.modules_with_the_preamble_appended_still_hold_top_level_statements
+            forall|k: int| 0 <= k < itm.seq().len() ==> module_ok((#[trigger] itm.seq()[k]).1), //# - tree.loop2.aux
 //@   endloop
 //@ end
 //@ fn sylt-parser/src/parser.rs parse_type
